@@ -179,6 +179,8 @@ def make_equivariance(n, d, kind):
                 ctx.check("dof-invariant", eq(nu1, nu2))
         return None
 
+    _replay_memo = {}
+
     def replay(m, label, v):
         rng = np.random.RandomState(0)
         x = rng.standard_t(2, size=(200, d)) * 0.1 + 0.5  # heavy tails: the nu update stays finite
@@ -198,8 +200,13 @@ def make_equivariance(n, d, kind):
                 scalings += [np.array([1e-3, 1e3][:d]), np.array([1e4, 1.0][:d]), np.array([1e-6, 1e6][:d]), np.array([1.0, 1e-6][:d]), np.array([1e6, 1.0][:d])]  # per-coordinate (anisotropic) scalings
             import io, contextlib
             # heavy tails (the dof update stays finite and the EM loop runs) and light tails (the fit returns its initial scale matrix
-            # with nu = inf); after one iteration and at convergence
+            # with nu = inf); after one iteration and at convergence. This part does not depend on the solver's model: computed once.
             datasets = [("t(2)", x), ("uniform", np.random.RandomState(1).uniform(0.2, 0.8, size=(200, d)))]
+            if "scalings" in _replay_memo:
+                if _replay_memo["scalings"] is not None:
+                    return _replay_memo["scalings"]
+                datasets = []
+            _replay_memo["scalings"] = None
             for dname, xx in datasets:
                 for aa in scalings:
                     sc = aa.tolist()
@@ -208,8 +215,9 @@ def make_equivariance(n, d, kind):
                             p1, q1, r1 = fit_mvstud(xx, max_iter=mi)
                             p2, q2, r2 = fit_mvstud(xx * aa, max_iter=mi)
                         if not (np.allclose(p2, aa * p1, rtol=1e-6, atol=0) and np.allclose(q2, np.outer(aa, aa) * q1, rtol=1e-6, atol=0)):
-                            return {"reproduced": True, "signature": f"fit_mvstud:not-equivariant:{kind}", "payload": {"scale": sc, "data": dname, "max_iter": mi},
-                                    "what": f"fit_mvstud(max_iter={mi}) of 200 {dname} points scaled per coordinate by {sc}: scale matrix {q2.tolist()} is not diag(a) Sigma diag(a) of the unscaled one {q1.tolist()}"}
+                            _replay_memo["scalings"] = {"reproduced": True, "signature": f"fit_mvstud:not-equivariant:{kind}", "payload": {"scale": sc, "data": dname, "max_iter": mi},
+                                                        "what": f"fit_mvstud(max_iter={mi}) of 200 {dname} points scaled per coordinate by {sc}: scale matrix {q2.tolist()} is not diag(a) Sigma diag(a) of the unscaled one {q1.tolist()}"}
+                            return _replay_memo["scalings"]
             y = x * a + b
         else:
             a, b, perm = np.ones(d), np.zeros(d), [1, 0]
